@@ -992,6 +992,13 @@ def prop_c16(prop, tier, seed):
             queries.append(Query('c16/tables/%s' % fn, q['c'], checks=['--no-standard-checks', '--bounds-check'], meta=q['meta'], timeout=300))
         except bx2c.Unsupported as e:
             skipped.append((fn, str(e)))
+    # the summation loops of dgmlt1/dgmlt2 under their label-machine contract: the 'c16 at' pairing clauses of contracts/safety.contract
+    import safek
+    sq, sk = safek.all_queries(db, os.path.join(VERIF, 'contracts', 'safety.contract'))
+    for q in sq:
+        if q['meta']['function'] in ('decay0_dgmlt1', 'decay0_dgmlt2'):
+            queries.append(Query(q['qid'], q['c'], checks=safek.CHECKS, meta=q['meta'], timeout=900, mem_gb=10, extra=q['extra']))
+    skipped += [x for x in sk if 'dgmlt' in x[0]]
     results = run_all(queries)
     return evaluate(prop, queries, results, known, tier, seed, t0, skipped=skipped, assumptions=ASSUMPTIONS['C16'],
                     extra_cov={'not_covered': ['exactness on every interval (affine change of variable: real-arithmetic lemma)', 'adaptive QNG tolerance (GSL internals)',
@@ -1075,8 +1082,10 @@ ASSUMPTIONS = {
     'C02+': ['decay0_gauss (GSL QNG) and the reference gauss (CERNLIB D103 adaptive 8/16-point) are different algorithms for the same integral to the same relative tolerance: treated as one abstract effect of (integrand, limits, eps, closure); their numerical agreement is NOT decided',
              'dgmlt1/dgmlt2 (CERNLIB D110) are not part of the reference source file: abstract effect of (integrand, limits, ni, ng, closure) on both sides; their quadrature tables are decided by C16, the summation loop is not compared',
              'genbbsub dispatch, Q-values and levels are the C05/C06 obligations; the cascade routines and fe*_mod/dshelp/tgold/fermi have their own pairs listed here'],
-    'C16': ['only the tabulated Gauss-Legendre rules are decided (ground obligations on the real initialisers, bit-precise)',
-            'exactness on an arbitrary interval follows by the affine change of variable: real-arithmetic lemma, assumed'],
+    'C16': ['tabulated Gauss-Legendre rules: ground obligations on the real initialisers, bit-precise',
+            'summation loops of dgmlt1/dgmlt2 (label machine, all NI in 1..4096, both orders, all limits): every abscissa stored for panel k and node i is the term R*t_i + RA + (k-1)*D and is stored next to the weight w_i of the SAME i; products are uninterpreted terms, so this is a structural (term-level) fact, not a numerical one',
+            'NOT decided: the accumulation S += V*F over the flushed batch and the final R*S; exactness on an arbitrary interval then follows by the affine change of variable: real-arithmetic lemma, assumed',
+            'const static tables are given their real initialisers at the start of every segment (write-once: C07 frame scan)'],
     'C07': ['frame of L0-L2 kernels: DFCC assigns obligations; frame of L3-L5 bodies: scan of every assignment target in the clang AST (static fact, not a CBMC obligation)',
             'pointer/reference into the particle vector across an emission is the C08 obligation set (vector model: any push_back may reallocate)',
             'other generator instances, reset()/re-initialisation, shoot() resetting the event: decay0_generator.cc (pimpl/STL), not covered'],
